@@ -27,7 +27,8 @@ type SimWriter struct {
 	H        http.Header // what the client sees: the live map until the header is sent, a frozen copy afterwards
 	live     http.Header // what Header() hands out
 	sentHdr  bool
-	Statuses []int  // every WriteHeader call
+	Statuses []int  // every WriteHeader call with a final status
+	Interim  []int  // 1xx statuses other than 101: interim responses
 	Body     []byte // accepted bytes
 	Chunks   []int  // len(p) of every Write call
 	Accepted []int  // accepted byte count of every Write call
@@ -79,6 +80,12 @@ func (w *SimWriter) here(site Site) {
 
 func (w *SimWriter) WriteHeader(status int) {
 	w.here(SiteWHeader)
+	if status >= 100 && status < 200 && status != 101 {
+		// an interim response (103 Early Hints ...): net/http sends it and goes on; the final header is
+		// still to come and the header map stays live
+		w.Interim = append(w.Interim, status)
+		return
+	}
 	w.sendHeader()
 	w.Statuses = append(w.Statuses, status)
 }
